@@ -255,6 +255,10 @@ func (db *DB) Put(key, value string) error {
 }
 
 func (db *DB) PutBytes(keyBytes, valBytes []byte) error {
+	if len(keyBytes) == 0 || len(valBytes) == 0 {
+		return ErrEmptyKeyValue
+	}
+
 	// proto marshal takes 60%(!) of this method execution time
 	walBytes, err := proto.Marshal(&dbproto.WalMutation{
 		Mutation: &dbproto.WalMutation_Addition{
